@@ -76,6 +76,21 @@ CONTEXT_ONLY = [
 ]
 
 
+def parts_with_payload() -> list[bytes]:
+    """Hits that come with decoder-supplied parts (a URL, a UNC path) whose part holds an encoded blob, itself holding another:
+    with small depth limits the budget ends at, just above or just below the parts."""
+    inner = b"fetch 10.20.30.40 and http://evil-site.net/x.exe now"
+    l1 = base64.b64encode(inner)
+    l2 = base64.b64encode(b"run " + l1 + b" quietly")
+    out = []
+    for blob in (l1, l2, inner.hex().encode(), base64.b64encode(b"see " + inner.hex().encode() + b" ok")):
+        q = blob.replace(b"+", b"%2B").replace(b"/", b"%2F").replace(b"=", b"%3D")
+        out += [b"get http://example.com/a?x=" + q + b" now", b"get https://u:p@host.example.org:8080/p/" + q + b"#" + q + b" now",
+                b"open \\\\files.example.com\\share\\" + blob.replace(b"/", b"_").replace(b"+", b"-") + b".dll now",
+                b"cmd /c start http://example.com/?d=" + q]
+    return out
+
+
 def twice() -> list[bytes]:
     """The same encoded blob two or three times in one input (equal decoded texts are searched one straight after the other),
     and byte arrays / calls with a literal xor key in the same text."""
